@@ -97,10 +97,16 @@ pub fn sam_text(rng: &mut Rng, nrec: u64, unmapped_only: bool, long: bool) -> Ve
         s.push_str(&format!("@PG\tID:pg0\tPN:nv\n@CO\tc {}\n", bases(rng, n)));
     }
     for i in 0..nrec {
-        let l = if long && rng.chance(1, 3) { rng.range(20000, 45000) } else { rng.range(1, 40) } as usize;
+        let long_tag = long && rng.chance(1, 3);
+        let l = if long && !long_tag && rng.chance(1, 3) { rng.range(20000, 45000) } else { rng.range(1, 40) } as usize;
         let seq = bases(rng, l);
         let qual: String = (0..l).map(|_| (b'!' + rng.below(40) as u8) as char).collect();
-        let tags = match rng.below(4) {
+        let tags = match if long_tag { 4 } else { rng.below(4) } {
+            4 => {
+                // a long trailing field: in bgzipped SAM the block boundary falls inside it
+                let n = rng.range(20000, 45000) as usize;
+                format!("\tNH:i:1\tZZ:Z:{}", bases(rng, n))
+            }
             0 => "".to_string(),
             1 => "\tNH:i:1".to_string(),
             2 => {
